@@ -116,7 +116,7 @@ def main(argv=None):
         else:
             unlisted.append(v)
 
-    replay_root = common.VERIF / "replay" / mod.ID
+    replay_root = common.out_dir("replay") / mod.ID
     if replay_root.exists():
         shutil.rmtree(replay_root, ignore_errors=True)
     printed = 0
